@@ -815,6 +815,17 @@ func SexpToGoStructs(
 			// already did it. Return alreadyGoStruct.
 			cacheHit = true
 			vo := reflect.ValueOf(alreadyGoStruct).Elem()
+			// the record may be referenced from slots of different shapes
+			// (*T, T, an interface): find the *T and store what this slot takes.
+			if vo.Kind() == reflect.Interface && !vo.IsNil() {
+				vo = vo.Elem()
+			}
+			if vo.Kind() == reflect.Struct && vo.CanAddr() {
+				vo = vo.Addr()
+			}
+			if vo.Kind() == reflect.Ptr && targElemKind == reflect.Struct && vo.Type().Elem() == targElemTyp {
+				vo = vo.Elem()
+			}
 			targVa.Elem().Set(vo)
 
 			return target, nil
